@@ -66,7 +66,7 @@ func (f fam) name() string {
 func strp(s string) *string { return &s }
 
 // loginDevice: telnet or ssh front end in front of a two level device; rej = rejected attempts.
-func loginDevice(kind string, s secrets, rej int, askPP bool, escBehaviour string) *dev.CLIDevice {
+func loginDevice(kind string, s secrets, rej int, askPP bool, escBehaviour string, onSecret func()) *dev.CLIDevice {
 	attempts := 0
 	shell := func(_ *dev.CLIDevice, line string) dev.Reply {
 		switch line {
@@ -78,7 +78,7 @@ func loginDevice(kind string, s secrets, rej int, askPP bool, escBehaviour strin
 			return dev.Reply{}
 		case "enable":
 			switch escBehaviour {
-			case "asks-grants", "asks-refuses":
+			case "asks-grants", "asks-refuses", "asks-eof", "asks-eio", "asks-silent":
 				return dev.Reply{Raw: strp("Password: "), Next: "enable-pw"}
 			case "grants":
 				return dev.Reply{Next: "priv"}
@@ -95,6 +95,9 @@ func loginDevice(kind string, s secrets, rej int, askPP bool, escBehaviour strin
 		{Name: "enable-pw", Prompt: "Password: ", NoEcho: true, OnLine: func(_ *dev.CLIDevice, line string) dev.Reply {
 			if escBehaviour == "asks-grants" && line == s.enable {
 				return dev.Reply{Next: "priv"}
+			}
+			if line == s.enable && onSecret != nil {
+				onSecret() // the session dies (or falls silent) right after the secret arrived
 			}
 			return dev.Reply{Out: "% Access denied", Next: "exec"}
 		}},
@@ -156,7 +159,16 @@ func scenario(f fam) sched.Scenario {
 			var tr *dev.FakeTransport
 			var impl transport.Implementation
 			mk := func(kind string, rej int, askPP bool, esc string) {
-				d = loginDevice(kind, f.sec, rej, askPP, esc)
+				d = loginDevice(kind, f.sec, rej, askPP, esc, func() {
+					switch esc {
+					case "asks-eof":
+						tr.Loss, tr.LossAt = dev.LossEOF, tr.Sent()
+					case "asks-eio":
+						tr.Loss, tr.LossAt = dev.LossEIO, tr.Sent()
+					case "asks-silent":
+						tr.StallAt = tr.Sent()
+					}
+				})
 				tr = dev.NewFake(e, d)
 				tr.MaxChunk, tr.Cuts = f.maxChunk, f.env > 0
 				switch kind {
@@ -208,6 +220,20 @@ func scenario(f fam) sched.Scenario {
 					ran = n.AcquirePriv("privilege-exec")
 					_, _ = n.SendCommand("show x")
 					_ = n.Close()
+				case "onopen-escalate":
+					// the escalation runs inside the driver's on-open function, whose error Open reports and logs
+					mk("", 0, false, f.variant)
+					n, err := network.NewDriver("dev", append(base(), options.WithPrivilegeLevels(levels(true)), options.WithDefaultDesiredPriv("privilege-exec"), options.WithAuthSecondary(f.sec.enable),
+						options.WithNetworkOnOpen(func(d *network.Driver) error { return d.AcquirePriv("privilege-exec") }))...)
+					if err != nil {
+						setupErr = err
+						return
+					}
+					ran = n.Open()
+					if ran == nil {
+						_, _ = n.SendCommand("show x")
+						_ = n.Close()
+					}
 				case "interactive":
 					mk("", 0, false, "grants")
 					events := []*channel.SendInteractiveEvent{
@@ -321,7 +347,7 @@ default:
 						sent = true
 					}
 				}
-				faulty := f.variant == "stall" || f.variant == "write-error"
+				faulty := f.variant == "stall" || f.variant == "write-error" || f.variant == "asks-eof" || f.variant == "asks-eio" || f.variant == "asks-silent"
 				if !sent && f.variant != "grants" && f.variant != "refuses" && !faulty {
 					e.Violate("c11:vacuous", "no secret ever reached the device in this scenario (lines %v)", d.Lines)
 				}
@@ -343,8 +369,11 @@ func scenarios(tier string) []sched.Scenario {
 	for _, v := range []string{"ok", "retry", "fail", "stall", "write-error"} {
 		fvs = append(fvs, fv{"telnet-login", v}, fv{"ssh-login", v})
 	}
-	for _, v := range []string{"asks-grants", "grants", "refuses", "asks-refuses"} {
+	for _, v := range []string{"asks-grants", "grants", "refuses", "asks-refuses", "asks-eof", "asks-eio", "asks-silent"} {
 		fvs = append(fvs, fv{"escalate", v})
+	}
+	for _, v := range []string{"asks-grants", "asks-refuses", "asks-eof", "asks-eio", "asks-silent"} {
+		fvs = append(fvs, fv{"onopen-escalate", v})
 	}
 	fvs = append(fvs, fv{"interactive", "generic"}, fv{"interactive", "network"}, fv{"platform-onopen", "redacted-write"})
 	for _, x := range fvs {
@@ -367,7 +396,7 @@ func TestCheck(t *testing.T) {
 	sched.Main(t, sched.Check{
 		ID:          "C11",
 		Level:       "exploration",
-		Rule:        "invariant monitor over every execution of: telnet and ssh in-channel login {accepted, one rejection, three rejections, device silent at the password prompt, write error on the credential write}, privilege escalation {asks then grants, grants, refuses, asks then refuses}, interactive send with a hidden secret (generic and network), platform on-open with a redacted write; x log level {debug, info, critical} x secret shape {plain, format verbs, regex metacharacters} x read preset {whole, 1 byte} (+ every single extra cut/hold at debug level); a capturing logger and a channel-log writer are attached; distinct = distinct (family, variant, level, secret, schedule)",
+		Rule:        "invariant monitor over every execution of: telnet and ssh in-channel login {accepted, one rejection, three rejections, device silent at the password prompt, write error on the credential write}, privilege escalation, called directly and from the driver's on-open function {asks then grants, grants, refuses, asks then refuses, asks then the stream ends / fails / falls silent right after the secret arrived}, interactive send with a hidden secret (generic and network), platform on-open with a redacted write; x log level {debug, info, critical} x secret shape {plain, format verbs, regex metacharacters} x read preset {whole, 1 byte} (+ every single extra cut/hold at debug level); a capturing logger and a channel-log writer are attached; distinct = distinct (family, variant, level, secret, schedule)",
 		Assumptions: []string{"the device never echoes a secret (precondition of the property)", "non-vacuity is checked: the secret reached the device, the debug log carries 'redacted' and ordinary writes"},
 		Scenarios:   scenarios,
 		Budget:      map[string]time.Duration{"quick": 4 * time.Minute, "thorough": 20 * time.Minute},
